@@ -17,6 +17,9 @@ type InMemory struct {
 	namespaces []Cursor
 	attributes []Cursor
 	nodes      []Cursor
+	// inherited holds the parent's namespace cursors until this element's own
+	// namespace declarations have all been seen (see finishNamespaces).
+	inherited []Cursor
 }
 
 func initElement() InMemory {
@@ -51,6 +54,10 @@ func createInMemory(cursor *InMemory, parse parser.Parser, pos int) error {
 	n, isEnd, err := parse.Pull()
 
 	if errors.Is(err, io.EOF) {
+		for c := cursor; c.inherited != nil; c = c.parent {
+			pos = finishNamespaces(c, pos)
+		}
+
 		return nil
 	}
 
@@ -58,13 +65,18 @@ func createInMemory(cursor *InMemory, parse parser.Parser, pos int) error {
 		return err
 	}
 
+	if ns, ok := n.(node.Namespace); ok && !isEnd {
+		pos = addNamespace(ns, cursor, pos)
+		return createInMemory(cursor, parse, pos)
+	}
+
+	pos = finishNamespaces(cursor, pos)
+
 	if isEnd {
 		return createInMemory(cursor.parent, parse, pos)
 	}
 
 	switch v := n.(type) {
-	case node.Namespace:
-		pos = addNamespace(v, cursor, pos)
 	case node.Attribute:
 		pos++
 		cursor.attributes = append(cursor.attributes, createNonElement(v, cursor, pos))
@@ -94,8 +106,9 @@ func addNamespace(ns node.Namespace, cursor *InMemory, pos int) int {
 	}
 
 	if toReplace < 0 {
+		pos++
 		cursor.namespaces = append(cursor.namespaces, createNonElement(ns, cursor, pos))
-		return pos + 1
+		return pos
 	}
 
 	nsPos := cursor.namespaces[toReplace].(*InMemory).pos
@@ -118,17 +131,43 @@ func createElement(node node.Node, parent *InMemory, pos int) (*InMemory, int) {
 	next.pos = pos
 	next.parent = parent
 
-	ns := make([]Cursor, len(parent.namespaces))
-	copy(ns, parent.namespaces)
+	next.inherited = parent.namespaces
 
-	next.namespaces = ns
+	return &next, pos
+}
 
-	for _, i := range next.namespaces {
-		pos++
-		i.(*InMemory).pos = pos
+// finishNamespaces completes the namespace nodes of an element once all of its
+// own declarations have been received: every namespace node inherited from the
+// parent that was not overridden by prefix is copied, so that each element owns
+// its namespace cursors (Parent() is the element) and every cursor has its own
+// position, after the element and its declared namespaces and before its
+// attributes and children.
+func finishNamespaces(cursor *InMemory, pos int) int {
+	if cursor.inherited == nil {
+		return pos
 	}
 
-	return &next, pos + len(next.namespaces)
+	declared := len(cursor.namespaces)
+
+	for _, i := range cursor.inherited {
+		ns := i.(*InMemory).node.(node.Namespace)
+		overridden := false
+
+		for _, d := range cursor.namespaces[:declared] {
+			if d.(*InMemory).node.(node.Namespace).Prefix() == ns.Prefix() {
+				overridden = true
+				break
+			}
+		}
+
+		if !overridden {
+			pos++
+			cursor.namespaces = append(cursor.namespaces, createNonElement(ns, cursor, pos))
+		}
+	}
+
+	cursor.inherited = nil
+	return pos
 }
 
 func (c *InMemory) Pos() int {
